@@ -282,6 +282,12 @@ def gen(ctx):
     for n in (nbig - 2, nbig - 1, nbig, nbig + 1):
         es = ["%04x:%d" % (j + 0x1000, 1600000000) for j in range(n)]
         add("crl 1 %s %d %d %s - 1" % (hexs(CA), NOW, NOW + 86400, ",".join(es)), "crl:revoked-len:~65536")
+    # --- signature algorithm identifier as a dimension: inner x outer x signature bits, on certificates, requests, CRLs
+    for kind in ("cert", "req", "crl"):
+        for inner in ((0, 2, 3, 4) if kind != "req" else (0,)):
+            for outer in range(8):
+                for mode in ("good", "random", "corrupt"):
+                    add("sigalg %s %d %d %s" % (kind, inner, outer, mode), "sigalg:%s:inner%d:outer%d:%s" % (kind, inner, outer, mode))
     # --- every single-bit modification of an issued object must fail verification
     step = 3 if not thorough else 1
     flips = []
